@@ -227,6 +227,31 @@ def coincident(r, q):
     return p if r.random() < 0.75 else [-x for x in p]
 
 
+def neardup_rv(r, rs):
+    """class d: consecutive columns equal or isApprox-equal (3e-3 relative) — exposes 'reuse the previous column' shortcuts"""
+    out = [rs[0]]
+    for _ in rs[1:]:
+        p = out[-1]
+        if r.random() < 0.2:
+            out.append(list(p))
+        else:
+            d = rand_dir(r)
+            sc = 3e-3 * max(vnorm(p), 0.05)
+            out.append([x + sc * y for x, y in zip(p, d)])
+    return out
+
+
+def neardup_q(r, qs):
+    out = [qs[0]]
+    for _ in qs[1:]:
+        p = out[-1]
+        if r.random() < 0.2:
+            out.append(list(p))
+        else:
+            out.append(list(qmul(true_exp([3e-3 * x for x in rand_dir(r)]), p)))
+    return out
+
+
 def gen_phase1(g, n_each):
     r = g.r
     cases = []
@@ -234,17 +259,26 @@ def gen_phase1(g, n_each):
     for k in range(n_each):
         n = widths[k % len(widths)]
         st = RV_STYLES[(k // len(widths)) % len(RV_STYLES)]
-        cases.append(mk_qexp([gen_rotvec(r, st if r.random() < 0.8 else r.choice(RV_STYLES)) for _ in range(n)], style=st))
+        rs = [gen_rotvec(r, st if r.random() < 0.8 else r.choice(RV_STYLES)) for _ in range(n)]
+        if n >= 2 and st == "general" and r.random() < 0.5:
+            rs, st = neardup_rv(r, rs), "near-duplicate-columns"
+        cases.append(mk_qexp(rs, style=st))
     for k in range(n_each):
         n = widths[k % len(widths)]
         st = Q_STYLES[(k // len(widths)) % len(Q_STYLES)]
-        cases.append(mk_qlog([gen_quat(r, st if r.random() < 0.8 else r.choice(Q_STYLES)) for _ in range(n)], style=st))
+        qs = [gen_quat(r, st if r.random() < 0.8 else r.choice(Q_STYLES)) for _ in range(n)]
+        if n >= 2 and st in ("uniform", "negative-w") and r.random() < 0.5:
+            qs, st = neardup_q(r, qs), "near-duplicate-columns"
+        cases.append(mk_qlog(qs, style=st))
     for k in range(n_each):
         n = widths[k % len(widths)]
         m = r.choice([1, 1, 2, 3])
         st = RV_STYLES[(k // len(widths)) % len(RV_STYLES)]
         qb = [gen_quat(r, r.choice(Q_STYLES)) for _ in range(m)]
-        cases.append(mk_qsum(qb, [gen_rotvec(r, st if r.random() < 0.8 else r.choice(RV_STYLES)) for _ in range(n)], style=st))
+        rs = [gen_rotvec(r, st if r.random() < 0.8 else r.choice(RV_STYLES)) for _ in range(n)]
+        if n >= 2 and st == "general" and r.random() < 0.5:
+            rs, st = neardup_rv(r, rs), "near-duplicate-columns"
+        cases.append(mk_qsum(qb, rs, style=st))
     for k in range(n_each):
         n = widths[k % len(widths)]
         m = r.choice([1, 1, 2, 3])
@@ -262,6 +296,8 @@ def gen_phase1(g, n_each):
                 ql.append([-x for x in qmul(true_exp(gen_rotvec(r, r.choice(["near-cut", "general"]))), qr[0])])
             else:
                 ql.append(list(qmul(true_exp(gen_rotvec(r, "near-pi")), qr[0])))
+        if n >= 2 and st == "independent" and r.random() < 0.5:
+            ql, st = neardup_q(r, ql), "near-duplicate-columns"
         base = len(cases)
         cases.append(mk_qdiff(ql, qr, style=st))
         # double cover: the real function again with negated operands
@@ -639,6 +675,81 @@ def check_mean(cases, H, Dm, P, stats):
             P.append(("corr", "mean:contract-on-model", "the implementation's result does not satisfy the eigenvector contract on the model's matrix: residual %r, v.v = %r" % (f[17:21], f[21]), idx))
 
 
+# ------------------------------------------------------------------ DerivedScalar = float instantiations (oracle side only)
+
+import struct as _struct
+
+FSLACK = 1e-4          # float: eps 6e-8, acos conditioning 1/|vec| <= 200 on these inputs, plus float input rounding of unit norm
+
+
+def f32(x):
+    return _struct.unpack("<f", _struct.pack("<f", x))[0]
+
+
+def f32q(q):
+    return [f32(x) for x in q]
+
+
+def gen_float(g, n_each):
+    """inputs away from the cut-offs (a float w within 6e-8 of 1 cannot resolve angles below ~7e-4: see design notes)"""
+    r = g.r
+    out = []
+    def rv():
+        n = r.uniform(0.02, math.pi - 0.02)
+        return f32q([n * x for x in rand_dir(r)])
+    def uq():
+        while True:
+            q = gen_quat(r, r.choice(["uniform", "negative-w", "half-turn"]))
+            if vnorm(q[1:]) > 0.01:
+                return f32q(q)
+    for k in range(n_each):
+        n = WIDTHS[k % len(WIDTHS)]
+        rs = [rv() for _ in range(n)]
+        qs = [uq() for _ in range(n)]
+        qb = [uq() for _ in range(r.choice([1, 2]))]
+        out.append(case("qexpf", " ".join(["qexpf", str(n)] + cm(rs)), r=rs))
+        out.append(case("qlogf", " ".join(["qlogf", str(n)] + cm(qs)), q=qs))
+        out.append(case("qsumf", " ".join(["qsumf", str(len(qb)), str(n)] + cm(qb) + cm(rs)), q=qb, r=rs))
+        ql = [f32q(qmul(true_exp(rv()), qb[0])) for _ in range(n)]
+        out.append(case("qdifff", " ".join(["qdifff", str(n), str(len(qb))] + cm(ql) + cm(qb)), ql=ql, qr=qb))
+        c = uq()
+        kk = r.randint(1, 3)
+        rr = [[0.3 * x for x in rv()] for _ in range(kk)]
+        ms = [f32q(c)] + [f32q(qmul(true_exp(x), c)) for x in rr] + [f32q(qmul(true_exp([-y for y in x]), c)) for x in rr]
+        w = f32q([1.0 / len(ms)] * len(ms))
+        out.append(case("qmeanf", " ".join(["qmeanf", str(len(ms))] + [hexd(x) for x in w] + cm(ms)), w=w, q=ms, centre=c))
+    return out
+
+
+def check_float(cases, H, P, stats):
+    for idx, c in enumerate(cases):
+        op = c["op"]
+        ref = ("f", idx)
+        k = 4 if op in ("qexpf", "qsumf", "qmeanf") else 3
+        n = 1 if op == "qmeanf" else len(c.get("r") or c.get("q") or c.get("ql"))
+        cols, why = parse_cols(H[idx], k, n)
+        if cols is None:
+            P.append(("prop", "float:" + op + ":no-result", "%s (float instantiation) failed on a valid input: %s" % (op, why), ref)); continue
+        stats["float_columns"] = stats.get("float_columns", 0) + n
+        for j, v in enumerate(cols):
+            if not finite(v):
+                P.append(("prop", "float:" + op + ":not-finite", "%s (float instantiation): column %d is %r" % (op, j, v), ref)); continue
+            if op in ("qexpf", "qsumf"):
+                exp_ = true_exp(c["r"][j]) if op == "qexpf" else qmul(true_exp(c["r"][j]), c["q"][0])
+                d = rotdist(normalise(v), normalise(list(exp_)))
+                if unit_defect(v) > 1e-5 or d > BOUND + FSLACK:
+                    P.append(("prop", "float:" + op + ":wrong", "%s (float instantiation): column %d = %r: squared norm 1%+.3g, %.3g rad from the expected rotation" % (op, j, v, math.fsum(x * x for x in v) - 1, d), ref))
+            elif op in ("qlogf", "qdifff"):
+                tgt = c["q"][j] if op == "qlogf" else qmul(c["ql"][j], qconj(c["qr"][0]))
+                d = rotdist(true_exp(v), normalise(list(tgt)))
+                if vnorm(v) > math.pi + 1e-5 or d > BOUND + FSLACK:
+                    P.append(("prop", "float:" + op + ":wrong", "%s (float instantiation): column %d = %r: norm %.7g, exp of it %.3g rad from the expected rotation" % (op, j, v, vnorm(v), d), ref))
+            else:
+                e = vec_dist_up_to_sign(normalise(v), normalise(c["centre"]))
+                if unit_defect(v) > 1e-5 or e > 1e-4:
+                    P.append(("prop", "float:qmeanf:wrong", "mean_quaternion (float instantiation) of a symmetric set around %r returned %r" % (c["centre"], v), ref))
+
+
 # ------------------------------------------------------------------ run
 
 def witnesses():
@@ -673,6 +784,12 @@ def load_corpus():
 def case_from_line(ln, style):
     t = ln.split()
     op = t[0]
+    if op in ("qexpf", "qlogf", "qsumf", "qdifff", "qmeanf"):
+        c = case_from_line(" ".join([op[:-1]] + t[1:]), style)
+        c.update(op=op, line=ln)
+        if op == "qmeanf":
+            c["centre"] = c["q"][0]
+        return c
     f = lambda toks, k: [[unhex(x) for x in toks[j * k:(j + 1) * k]] for j in range(len(toks) // k)]
     if op == "qexp":
         return case(op, ln, r=f(t[2:], 3), style=style)
@@ -688,6 +805,23 @@ def case_from_line(ln, style):
         n = int(t[1])
         return case(op, ln, w=[unhex(x) for x in t[2:2 + n]], q=f(t[2 + n:], 4), style="random")
     raise ValueError(ln)
+
+
+def build_plain():
+    """h_quat.cpp (the utils templates are header-only) without sanitizers at -O2 -DNDEBUG -march=native: Eigen's vectorised
+    quaternion product and other optimisation-dependent paths that the -O1 sanitizer build does not take"""
+    out = vlib.BUILD / "plain" / "h"
+    out.mkdir(parents=True, exist_ok=True)
+    binary, dep = out / "h_quat_plain", out / "h_quat_plain.d"
+    src = vlib.VERIF / "harness" / "h_quat.cpp"
+    with vlib.locked("plain-h_quat"):
+        if vlib._deps_stale(binary, dep, [src]):
+            cmd = ["g++", "-std=c++11", "-O2", "-DNDEBUG", "-march=native", "-I", str(vlib.REPO / "src/BayesFilters/include"), "-I", vlib.EIGEN_INC,
+                   "-I", str(vlib.VERIF / "harness"), "-MMD", "-MF", str(dep), str(src), "-o", str(binary)]
+            rc, o, e = vlib.sh(cmd)
+            if rc != 0:
+                raise vlib.BuildError("plain harness h_quat failed to compile:\n%s" % e[-4000:])
+    return binary
 
 
 def run(ctx):
@@ -708,6 +842,8 @@ def run(ctx):
             c = case_from_line(ln, "replay")
             c.update(m or {})
             cases.append(c)
+        replay_float = [c for c in cases if c["op"].endswith("f")]
+        cases = [c for c in cases if not c["op"].endswith("f")]
     else:
         cases = witnesses() + load_corpus()
         for part in (gen_phase1(ctx.gen("convert"), ctx.n(119, 2400)), gen_mean(ctx.gen("mean"), ctx.n(120, 3000))):
@@ -737,6 +873,31 @@ def run(ctx):
     Dm_lines = vlib.run_driver([lines[i] + " " + " ".join(hexd(x) for x in v) for i, v in mean_idx])
     Dm = {i: d for (i, _), d in zip(mean_idx, Dm_lines)}
     check_mean(cases, H, Dm, P, stats)
+    # second pass: phase 1 and the means through the plain -O2 build, same predicates
+    plain = build_plain()
+    Hp, logsp = vlib.run_harness(plain, lines)
+    Pp, pstats = [], {"branches": {}, "round_trips": {}, "mean_styles": {}}
+    saved = [c.get("res") for c in cases]
+    check_phase1(cases, Hp, D, Pp, pstats)
+    mean_idx_p = []
+    for i, c in enumerate(cases):
+        if c["op"] == "qmean":
+            colsp, _ = parse_cols(Hp[i], 4, 1)
+            if colsp is not None and finite(colsp[0]):
+                mean_idx_p.append((i, colsp[0]))
+    Dmp_lines = vlib.run_driver([lines[i] + " " + " ".join(hexd(x) for x in v) for i, v in mean_idx_p])
+    check_mean(cases, Hp, {i: d for (i, _), d in zip(mean_idx_p, Dmp_lines)}, Pp, pstats)
+    for c, r_ in zip(cases, saved):
+        c["res"] = r_
+    P += [(k, key, "[plain -O2 -march=native build] " + what, ref) for (k, key, what, ref) in Pp]
+    stats["plain_build"] = {"cases": len(lines), "crashes": len(logsp), "tight_disagreements_note": pstats.get("tight_disagreements", 0),
+                            "max_unit_defect": pstats.get("max_unit_defect"), "max_eig_residual_rel": pstats.get("max_eig_residual_rel")}
+    for i, log in list(logsp.items())[:3]:
+        ctx.violation("crash:plain:" + Hp[i], "plain build crashed on a valid input: %s" % Hp[i], {"harness": "h_quat (plain)", "input_lines": [lines[i]], "log": log[-1500:]})
+    # the same templates with DerivedScalar = float
+    fcases = [c for c in replay_float] if ctx.replay else gen_float(ctx.gen("float"), ctx.n(17, 340))
+    Hf, logsf = vlib.run_harness(binary, [c["line"] for c in fcases])
+    check_float(fcases, Hf, P, stats)
 
     KEEP = ("style", "sibling", "centre", "rs", "q0")
 
@@ -747,6 +908,8 @@ def run(ctx):
 
     def inputs_of(ref):
         """(input lines, observed output, metas) — a replay re-runs the lines; the second phase is regenerated from them"""
+        if isinstance(ref, tuple) and ref[0] == "f":
+            return [fcases[ref[1]]["line"]], Hf[ref[1]], [{}]
         if isinstance(ref, tuple):
             d = p2[ref[1]]
             return [cases[d["src"]]["line"]], H2[ref[1]], [meta_of(cases[d["src"]])]
@@ -781,7 +944,9 @@ def run(ctx):
         ctx.violation("crash:" + H[i], "implementation crashed on a valid input: %s" % H[i], {"harness": "h_quat", "input_lines": [lines[i]], "log": log[-1500:]})
     for i, log in list(logs2.items())[:3]:
         ctx.violation("crash:" + H2[i], "implementation crashed on a valid input: %s" % H2[i], {"harness": "h_quat", "input_lines": [p2[i]["line"]], "log": log[-1500:]})
-    allcases = lines + [d["line"] for d in p2]
+    for i, log in list(logsf.items())[:3]:
+        ctx.violation("crash:float:" + Hf[i], "float instantiation crashed on a valid input: %s" % Hf[i], {"harness": "h_quat", "input_lines": [fcases[i]["line"]], "log": log[-1500:]})
+    allcases = lines + [d["line"] for d in p2] + [c["line"] for c in fcases]
     distinct = set(allcases)
     op_hist = {}
     for c in cases:
@@ -800,7 +965,7 @@ def run(ctx):
                 "differences of independent / close / coincident (bit-identical, renormalised, 1 ulp off, exp(r) q with |r| = 0, 1e-16 .. 1e-6) / double-cover / half-turn-apart pairs, each re-run with negated operands; every result fed back through the real "
                 "inverse function (second phase); means: random, clustered, all +-q, symmetric sigma-point layouts with non-negative and with unscented weights, single column, "
                 "each re-run with negated and with permuted inputs. every case is distinct by construction (random draws); distinct = distinct input lines",
-        "samples": [lines[0], lines[min(len(lines) - 1, 40)][:400], (p2[0]["line"][:400] if p2 else ""), lines[-1][:400]],
+        "samples": [x[:400] for x in ([allcases[0], allcases[min(len(allcases) - 1, 40)], (p2[0]["line"] if p2 else allcases[0]), allcases[-1]] if allcases else [])],
         "op_style_histogram": op_hist, "width_histogram": width_hist,
         "model_branches_hit": stats.pop("branches"),
         "round_trip_columns": stats.pop("round_trips"), "mean_style_histogram": stats.pop("mean_styles"),
@@ -810,7 +975,7 @@ def run(ctx):
         "model_vs_impl_disagreements": len(corr_bad), "property_failures_on_impl": len(prop_bad),
         "sanitizer_crashes": len(logs) + len(logs2),
         "exhaustive": False,
-        "counterexample_witnesses_replayed": [lines[0]] if not ctx.replay else [],
+        "counterexample_witnesses_replayed": [lines[0]] if (lines and not ctx.replay) else [],
     })
     ctx.notes.append("tight model-vs-implementation agreement (64 eps, log scaled by 1/|vec|): %d column(s) differ; reported as a note only — the property "
                      "promises rotations up to sign and the 2e-4 cut-off bound" % tight)
